@@ -1048,6 +1048,11 @@ func (vc *VC) isPooledPtr(t types.Type) bool {
 
 func (fr *Frame) ownTags() []string {
 	if fr.vc.spec != nil && contains(fr.vc.spec.Props, "C14") {
+		// in the parsers the same discipline is what keeps one connection's malformed input from
+		// reaching another connection through a recycled header (C11)
+		if contains(fr.vc.spec.Props, "C11") {
+			return []string{"C14", "C11"}
+		}
 		return []string{"C14"}
 	}
 	return []string{"C14-not-claimed-here"}
